@@ -166,6 +166,24 @@ claim("C09", "other",
       "Exploration only for the template/compiler/OS part; 30 s stands for termination.",
       "Rocq termination lemmas for modelled parts + exploration of the tool with compile check", "6 C09")
 
+claim("C13", "proof",
+      "Coq theorems (Properties/C13.v) over a model of the hand-written front-end scanner (FScan, total): layout (blanks, // and /* */ "
+      "comments) inserted at any token boundary leaves the token list (types and literals) unchanged; every spelling of a character literal "
+      "decodes to the same code point; a string literal's symbol is the text between its quotes. The model is tied to the scanner by "
+      "comparing token streams (type, literal, offset, line, column, error count) on grammar files and byte-level mutations; the real binary "
+      "is run on respelled files (layout, character-literal spellings, quoting style) and all generated Go files must be byte-identical; an "
+      "inventory obligation checks that no generator reads the original bytes of a character literal.",
+      "Coq kernel; scanner modelled by hand (tables for unicode.IsLetter etc. generated from the toolchain); layout only at token boundaries.",
+      "Rocq proof (simulation between scanner runs) + extracted-model correspondence + metamorphic run of the tool", "6 C13")
+claim("C14", "proof",
+      "Composition of C13 and C15 restated in Properties/C14.v: the front-end parser on the shipped tables accepts ONLY sentences of the spec "
+      "grammar, for all token sequences, with recovery gated off (nothing is skipped: the parse tree's yield is the whole token sequence), and "
+      "the scanner hands tokens over in file order. The semantic checks (undefined production / regular definition, duplicate definition) are Go "
+      "code outside the models: explored with token-level mutants whose ill-formedness is decided from the real scanner's token stream "
+      "(Earley on the spec + the semantic rules): the binary must exit non-zero, and the model front end must agree with spec membership.",
+      LR_NOTE + " Character-level damage is outside the property's token-level quantifier (see notes/FSCAN_NOTES.md).",
+      "Rocq theorems (validated shipped tables, scanner model) + mutation-based exploration of the semantic checks", "6 C14")
+
 ALL = ["C%02d" % i for i in range(1, 21)]
 NOT_YET = "framework under construction: check for this property not built yet (planned, see DESIGN.md section 6)"
 
